@@ -2,7 +2,7 @@
 use std::sync::Mutex;
 
 use mahf::{
-    components::{boundary, initialization, mapping, swarm::pso as sp},
+    components::{boundary, initialization, mapping, swarm::pso as sp, Block, Scope},
     conditions::LessThanN,
     heuristics::pso,
     identifier::Global,
@@ -35,6 +35,11 @@ struct Params {
     /// a better foreign solution is recorded as the run's best individual before the swarm exists
     warm_start: bool,
     f: RealFn,
+    /// loop condition: 0 = iterations(n); 1 = evaluations(e) | iterations(n) with e reached half-way (n passes as well;
+    /// the iteration bound - the one the weight schedule follows - is the SECOND operand)
+    cond: u8,
+    /// a second, smaller swarm (size, passes) run to completion inside a scope at the end of every pass of the outer swarm
+    nested: Option<(u32, u32)>,
 }
 
 #[derive(Default)]
@@ -57,6 +62,13 @@ struct Rec {
     loop_started: bool,
 }
 
+/// One record per scope depth: a swarm nested in a scope has its own memories, and they vanish with the scope.
+#[derive(Default)]
+struct Recs {
+    by_depth: std::collections::BTreeMap<usize, Rec>,
+    closed: Vec<Rec>,
+}
+
 fn sizes_ok(state: &State<P>) -> Option<String> {
     let n = state.populations().current().len();
     let v = state.try_borrow::<sp::ParticleVelocities<Global>>().ok().map(|v| v.len());
@@ -68,17 +80,26 @@ fn sizes_ok(state: &State<P>) -> Option<String> {
     }
 }
 
-fn observe(rec: &Mutex<Rec>, prm: &Params, ev: StepEvent<'_, P>, state: &State<P>) {
+fn observe(recs: &Mutex<Recs>, prm: &Params, ev: StepEvent<'_, P>, state: &State<P>) {
+    let depth = mv::observe::scope_depth(state);
+    let mut all = recs.lock().unwrap();
+    // scopes that have been left took their swarm with them
+    let gone: Vec<usize> = all.by_depth.keys().copied().filter(|d| *d > depth).collect();
+    for d in gone {
+        let r = all.by_depth.remove(&d).unwrap();
+        all.closed.push(r);
+    }
+    let r = all.by_depth.entry(depth).or_default();
     let (before, component) = match ev {
         StepEvent::BlockChild { before, component, .. } => (before, component),
         StepEvent::LoopPass { .. } => {
             // the swarm memories are complete once the swarm initialisation block has run
-            rec.lock().unwrap().loop_started = true;
+            r.loop_started = true;
             return;
         }
     };
     let name = mv::sniff::name_of(component);
-    let mut r = rec.lock().unwrap();
+    let outer = depth == 1;
     let cur_solutions = || -> Vec<Vec<f64>> { state.populations().current().iter().map(|i| i.solution().clone()).collect() };
     match name.as_str() {
         "ParticleVelocitiesUpdate" => {
@@ -149,8 +170,11 @@ fn observe(rec: &Mutex<Rec>, prm: &Params, ev: StepEvent<'_, P>, state: &State<P
         }
         "Linear" if !before => {
             r.weight_updates += 1;
-            let progress = state.try_get_value::<Progress<ValueOf<Iterations>>>().unwrap_or(f64::NAN);
+            // the loop's current progress, computed from the iteration counter and not read back from the state the
+            // loop condition maintains
+            let progress = state.try_get_value::<Iterations>().map(|k| k as f64 / prm.n as f64).unwrap_or(f64::NAN);
             let w = state.get_value::<W>();
+            let _ = outer;
             let want = (prm.end_w - prm.start_w) * progress + prm.start_w;
             if w.to_bits() != want.to_bits() && !((w - want).abs() <= 1e-12) {
                 r.violations.push((
@@ -201,7 +225,8 @@ fn observe(rec: &Mutex<Rec>, prm: &Params, ev: StepEvent<'_, P>, state: &State<P
         }
         _ => {}
     }
-    if !before && r.loop_started {
+    // (after the harness component that removes a nested swarm's population the innermost memories belong to a population that is gone)
+    if !before && r.loop_started && name != "PopTop" {
         if let Some(m) = sizes_ok(state) {
             r.violations.push(("sizes:collections-do-not-have-one-entry-per-particle".into(), format!("after {name}: {m}")));
         }
@@ -223,14 +248,50 @@ impl mahf::Component<P> for InjectBest {
     }
 }
 
+/// Removes the population a nested swarm worked on, so that the outer swarm is the current population again.
+#[derive(Clone, serde::Serialize)]
+struct PopTop;
+impl mahf::Component<P> for PopTop {
+    fn execute(&self, _problem: &P, state: &mut State<P>) -> mahf::ExecResult<()> {
+        state.populations_mut().pop();
+        Ok(())
+    }
+}
+
+fn loop_cond(prm: &Params) -> Box<dyn mahf::Condition<P>> {
+    match prm.cond {
+        0 => LessThanN::iterations(prm.n),
+        _ => LessThanN::evaluations(prm.swarm * (prm.n / 2 + 1)) | LessThanN::iterations(prm.n),
+    }
+}
+
 fn build(prm: &Params) -> Result<Configuration<P>, String> {
     if prm.via_template {
         return pso::real_pso::<P>(
             pso::RealProblemParameters { num_particles: prm.swarm, start_weight: prm.start_w, end_weight: prm.end_w, c_one: prm.c1, c_two: prm.c2, v_max: prm.v_max },
-            LessThanN::iterations(prm.n),
+            loop_cond(prm),
         )
         .map_err(|e| format!("{e:#}"));
     }
+    let state_update: Box<dyn mahf::Component<P>> = match prm.nested {
+        None => sp::ParticleSwarmUpdate::new(),
+        Some((m, k)) => {
+            let inner = pso::pso::<P, Global>(
+                pso::Parameters {
+                    particle_init: sp::ParticleSwarmInit::new(prm.v_max).map_err(|e| e.to_string())?,
+                    particle_update: sp::ParticleVelocitiesUpdate::new(0.6, prm.c1, prm.c2, prm.v_max).map_err(|e| e.to_string())?,
+                    constraints: boundary::Saturation::new(),
+                    inertia_weight_update: None,
+                    state_update: sp::ParticleSwarmUpdate::new(),
+                },
+                LessThanN::iterations(k),
+            );
+            Block::new(vec![
+                sp::ParticleSwarmUpdate::new(),
+                Scope::new(vec![initialization::RandomSpread::new(m), mahf::components::evaluation::PopulationEvaluator::new(), inner, Box::new(PopTop) as Box<dyn mahf::Component<P>>]),
+            ])
+        }
+    };
     let inner = pso::pso::<P, Global>(
         pso::Parameters {
             particle_init: sp::ParticleSwarmInit::new(prm.v_max).map_err(|e| e.to_string())?,
@@ -241,9 +302,9 @@ fn build(prm: &Params) -> Result<Configuration<P>, String> {
             } else {
                 None
             },
-            state_update: sp::ParticleSwarmUpdate::new(),
+            state_update,
         },
-        LessThanN::iterations(prm.n),
+        loop_cond(prm),
     );
     let mut b = Configuration::builder().do_(initialization::RandomSpread::new(prm.swarm)).evaluate().update_best_individual();
     if prm.warm_start {
@@ -261,12 +322,23 @@ fn run(rep: &Reporter, prm: &Params) {
             return;
         }
     };
-    let rec = Mutex::new(Rec::default());
+    let rec = Mutex::new(Recs::default());
     // the initial evaluation happens before the PSO block: seed the history from the first evaluator too
     let res = run_observed(&cfg, &problem, prm.seed, false, None, |ev, _p, s| observe(&rec, prm, ev, s));
     rep.case();
     rep.nontrivial(hash_of(&format!("{prm:?}")));
-    let r = rec.lock().unwrap();
+    let mut all = rec.lock().unwrap();
+    let mut r = Rec::default();
+    let by_depth = std::mem::take(&mut all.by_depth);
+    let closed = std::mem::take(&mut all.closed);
+    rep.count("nested_swarm_instances_observed", closed.len() as u64);
+    for part in by_depth.into_values().chain(closed) {
+        r.velocity_updates += part.velocity_updates;
+        r.weight_updates += part.weight_updates;
+        r.memory_updates += part.memory_updates;
+        r.clamped_components += part.clamped_components;
+        r.violations.extend(part.violations);
+    }
     rep.count("velocity_updates_observed", r.velocity_updates);
     rep.count("weight_updates_observed", r.weight_updates);
     rep.count("memory_updates_observed", r.memory_updates);
@@ -314,7 +386,9 @@ fn main() {
             with_weight_update: via_template || rng.chance(0.7),
             via_template,
             warm_start: !via_template && rng.chance(0.3),
-            f: *rng.pick(&[RealFn::Sphere, RealFn::Rastrigin, RealFn::Plateau, RealFn::ShiftedSphere]),
+            f: *rng.pick(&[RealFn::Sphere, RealFn::Rastrigin, RealFn::Plateau, RealFn::ShiftedSphere, RealFn::AllInf]),
+            cond: (rng.chance(0.3)) as u8,
+            nested: if !via_template && rng.chance(0.25) { Some((*rng.pick(&[1u32, 2, 3, 5]), 1 + rng.below(3) as u32)) } else { None },
         });
     }
     std::thread::scope(|s| {
